@@ -10,6 +10,7 @@ HERE="$(cd "$(dirname "${BASH_SOURCE[0]}")" && pwd)"
 export VERIF_ROOT="$HERE"
 export VERIF_REPO="${VERIF_REPO:-/repo}"
 export GOFLAGS=-mod=mod GOPROXY=off GOSUMDB=off GOTOOLCHAIN=local
+OUT="${VERIF_OUT:-$HERE}"
 export VERIF_SEED="${VERIF_SEED:-1}"
 case "$MODE" in
   quick|thorough) export VERIF_TIER="$MODE" ;;
@@ -33,10 +34,17 @@ case "$ID" in
 esac
 export VERIF_RACE="$RACE"
 cd "$HERE/harness" || exit 3
+if [ "$VERIF_REPO" != /repo ]; then
+  # a scratch copy of the repository (seeded-change trials): same harness module, the replace
+  # directive redirected through an alternative go.mod; registered commands never take this path
+  sed "s#=> /repo#=> $VERIF_REPO#" go.mod >"$BUILD/go.mod"
+  cp go.sum "$BUILD/go.sum"
+  export GOFLAGS="-mod=mod -modfile=$BUILD/go.mod"
+fi
 
 violation_file() { # $1 = class, $2 = text file with details
-  mkdir -p "$HERE/replays/$ID"
-  local W="$HERE/replays/$ID/$1_seed${VERIF_SEED}_${VERIF_TIER}.txt"
+  mkdir -p "$OUT/replays/$ID"
+  local W="$OUT/replays/$ID/$1_seed${VERIF_SEED}_${VERIF_TIER}.txt"
   cp "$2" "$W"
   echo "VIOLATION property=$ID replay=$W"
   echo "  class=$1 detail=$(head -c 300 "$2" | tr '\n' ' ')"
@@ -48,7 +56,7 @@ violation_file() { # $1 = class, $2 = text file with details
 OVERLAY=""
 case "$ID" in
   C01|C03|C04|C05|C06|C10)
-    if ! (cd "$VERIF_REPO/tars/tools/tars2go" && go build -o "$BUILD/tars2go" .) 2>"$BUILD/t2g-build.log"; then
+    if ! (cd "$VERIF_REPO/tars/tools/tars2go" && GOFLAGS=-mod=mod go build -o "$BUILD/tars2go" .) 2>"$BUILD/t2g-build.log"; then
       cat "$BUILD/t2g-build.log" >&2; echo "BUILD-FAILED property=$ID (tars2go)" >&2; exit 3
     fi
     mkdir -p "$BUILD/gen"
@@ -107,8 +115,8 @@ rc=${PIPESTATUS[0]}
 if [ "$rc" != 0 ] && [ "$rc" != 1 ] && ! grep -q '^INCONCLUSIVE property=' "$BUILD/stdout.log"; then
   # the monitor process itself died (panic / fatal error in the code under test outside any guard,
   # or killed): that is an observation about the real code, not a pass
-  mkdir -p "$HERE/replays/$ID"
-  W="$HERE/replays/$ID/process-death_seed${VERIF_SEED}_${VERIF_TIER}.txt"
+  mkdir -p "$OUT/replays/$ID"
+  W="$OUT/replays/$ID/process-death_seed${VERIF_SEED}_${VERIF_TIER}.txt"
   { echo "check process for $ID exited with status $rc"; echo "--- stderr tail ---"; tail -c 6000 "$BUILD/stderr.log"; echo "--- stdout tail ---"; tail -c 2000 "$BUILD/stdout.log"; for pf in "$BUILD"/panic.*; do [ -f "$pf" ] && { echo "--- $(basename "$pf") (stack dump written by CheckPanic) ---"; head -c 6000 "$pf"; }; done; } >"$W"
   tail -c 1500 "$BUILD/stderr.log" >&2
   echo "VIOLATION property=$ID replay=$W"
